@@ -55,12 +55,13 @@ CapsE(e) ==      \* pattern ids (0 = none) referenced by capture references in e
   CASE e.n = "cap" -> {e.p}
     [] e.n = "var" -> CapsEs(e.idx)
     [] e.n = "bin" -> CapsE(e.l) \cup CapsE(e.r)
-    [] e.n = "smatch" -> CapsE(e.l)
+    [] e.n \in {"smatch", "pmatch"} -> CapsE(e.l)
     [] e.n \in {"assign", "addassign"} -> CapsEs(e.idx) \cup CapsE(e.r)
     [] e.n \in {"inc", "dec"} -> CapsEs(e.idx)
     [] e.n = "call" -> CapsEs(e.args)
     [] OTHER -> {}
-PatOfCond(c) == IF c.n = "pat" THEN {c.p} ELSE IF c.n = "bin" /\ c.l.n = "pat" THEN {c.l.p} ELSE {}
+PatOfCond(c) == IF c.n = "pat" THEN {c.p} ELSE IF c.n = "bin" /\ c.l.n = "pat" THEN {c.l.p}
+                ELSE IF c.n = "bin" /\ c.r.n = "pmatch" THEN {c.r.p} ELSE {}
 \* every capture reference names a pattern that is in scope (vis = set of pattern ids in scope)
 VisOK(P, ss, vis, dvis) ==
   \/ ss = <<>>
@@ -102,7 +103,7 @@ ArityEs(P, es) == es = <<>> \/ (ArityE(P, Head(es)) /\ ArityEs(P, Tail(es)))
 ArityE(P, e) ==
   CASE e.n = "var" -> Len(e.idx) = KeysOf(P, e.m) /\ ArityEs(P, e.idx)
     [] e.n = "bin" -> ArityE(P, e.l) /\ ArityE(P, e.r)
-    [] e.n = "smatch" -> ArityE(P, e.l)
+    [] e.n \in {"smatch", "pmatch"} -> ArityE(P, e.l)
     [] e.n \in {"assign", "addassign"} -> Len(e.idx) = KeysOf(P, e.m) /\ ArityEs(P, e.idx) /\ ArityE(P, e.r)
     [] e.n \in {"inc", "dec"} -> Len(e.idx) = KeysOf(P, e.m) /\ ArityEs(P, e.idx)
     [] e.n = "call" -> ArityEs(P, e.args)
@@ -178,11 +179,11 @@ Mutate(P0, class, s) ==
          [prog |-> Anywhere(P, k, IncOf("zz", <<>>)), class |-> "undeclared metric", what |-> "zz++ inserted"]
     [] class = 2 ->   \* a capture group that no visible pattern defines
          [prog |-> Anywhere(Ensure(P, {"gi"}), k, [n |-> "expr", e |-> [n |-> "assign", m |-> "gi", idx |-> <<>>,
-                        r |-> [n |-> "cap", p |-> 0, g |-> 9, byname |-> Coin(s1, 1, 2), name |-> "nosuch"]]]),
+                        r |-> [n |-> "cap", p |-> 0, slot |-> 0, g |-> 9, byname |-> Coin(s1, 1, 2), name |-> "nosuch"]]]),
           class |-> "capture group not defined", what |-> "gi = $9 / $nosuch inserted"]
     [] class = 3 ->   \* numbered capture used where no pattern is in scope: first statement of the program
          [prog |-> [Ensure(P, {"gi"}) EXCEPT !.body = << [n |-> "expr", e |-> [n |-> "assign", m |-> "gi", idx |-> <<>>,
-                        r |-> [n |-> "cap", p |-> 0, g |-> 1, byname |-> FALSE, name |-> ""]]] >> \o @],
+                        r |-> [n |-> "cap", p |-> 0, slot |-> 0, g |-> 1, byname |-> FALSE, name |-> ""]]] >> \o @],
           class |-> "capture group not defined", what |-> "gi = $1 at top level"]
     [] class = 4 ->   \* an undefined decorator
          [prog |-> InBody(Ensure(P, {"gi"}), k, [n |-> "deco", name |-> "nodec", t |-> << IncOf("gi", <<>>) >>]),
